@@ -23,11 +23,15 @@ structure FitBatt (cap mp ts : ℝ) (b : Batt ℝ) : Prop where
 variable {cap mr V P ts : ℝ}
 
 theorem charge_step {b : Batt ℝ} (hb : FitBatt cap (mr * V / 1000) ts b) (hmr : 0 < mr)
-    (hV : 0 < V) (hP : 0 < P) (hc : 0 < cap) (hts : ts < 1) :
+    (hV : 0 < V) (hP : 0 < P) (hc : 0 < cap) (hts : ts < 1) (hle : b.charge ≤ cap) :
     ∃ b' r, Battery.charge b mr V P 0 = .ok (b', r) ∧ FitBatt cap (mr * V / 1000) ts b' ∧
-      b'.init = b.init ∧
+      b'.init = b.init ∧ b'.charge ≤ cap ∧
       b'.charge / cap = flowSoc (fitM mr V P cap) (fitM mr V P cap / (1 - ts)) (b.charge / cap) 1 := by
   have hm := fitM_pos hmr hV hP hc
+  have hκ : 0 < fitM mr V P cap / (1 - ts) := div_pos hm (by linarith)
+  have hs1 : b.charge / cap ≤ 1 := (div_le_one hc).2 hle
+  have hfb := flowSoc_bounds (p := fitM mr V P cap) (κ := fitM mr V P cap / (1 - ts))
+    (s := b.charge / cap) (t := 1) hm hκ hs1 (by norm_num)
   obtain ⟨hcap, hmp, htwo, hts', hnoise, hmode⟩ := hb
   have hz : ∀ x : ℝ, x ≠ 0 → Battery.isZero x = false := by
     intro x hx
@@ -39,20 +43,35 @@ theorem charge_step {b : Batt ℝ} (hb : FitBatt cap (mr * V / 1000) ts b) (hmr 
   rw [htwo, hmode]
   simp only [if_true]
   unfold contCharge
-  rw [if_neg (not_le.mpr hV), if_neg (not_le.mpr hP), hz mr hmr.ne', hcap, hz cap hc.ne', hmp]
-  have e1 : mr * V / ((1000 : Nat) : ℝ) / cap / (((60 : Nat) : ℝ) / P) = fitM mr V P cap := by
-    simp [fitM]
-  have e2 : mr * V / 1000 / cap / (((60 : Nat) : ℝ) / P) = fitM mr V P cap := by
-    simp [fitM]
-  simp only [Bool.false_eq_true, if_false, e1, e2, hz _ hm.ne', hnoise, lt_irrefl]
-  refine ⟨_, _, rfl, ⟨rfl, rfl, htwo, hts', rfl, hmode⟩, rfl, ?_⟩
-  simp only [soc, hcap, hts']
-  rw [contSoc_eq_flow hm hm hts, min_self]
-  field_simp
+  rw [if_neg (not_le.mpr hV), if_neg (not_le.mpr hP), hz mr hmr.ne', hcap, hz cap hc.ne']
+  simp only [Bool.false_eq_true, if_false, soc, hcap]
+  rcases lt_or_eq_of_le hs1 with hlt | heq
+  · -- below full: the closed form
+    rw [if_neg (not_le.mpr hlt), hmp]
+    have e1 : mr * V / ((1000 : Nat) : ℝ) / cap / (((60 : Nat) : ℝ) / P) = fitM mr V P cap := by
+      simp [fitM]
+    have e2 : mr * V / 1000 / cap / (((60 : Nat) : ℝ) / P) = fitM mr V P cap := by
+      simp [fitM]
+    simp only [e1, e2, hz _ hm.ne', hnoise, lt_irrefl, Bool.false_eq_true, if_false]
+    have hval : contSoc (b.charge / cap) b.ts (fitM mr V P cap) (fitM mr V P cap) =
+        flowSoc (fitM mr V P cap) (fitM mr V P cap / (1 - ts)) (b.charge / cap) 1 := by
+      rw [hts', contSoc_eq_flow hm hm hts, min_self]
+    refine ⟨_, _, rfl, ⟨rfl, rfl, htwo, hts', rfl, hmode⟩, rfl, ?_, ?_⟩
+    · show contSoc (b.charge / cap) b.ts (fitM mr V P cap) (fitM mr V P cap) * cap ≤ cap
+      rw [hval]; nlinarith [hfb.2.2]
+    · show contSoc (b.charge / cap) b.ts (fitM mr V P cap) (fitM mr V P cap) * cap / cap = _
+      rw [hval]; field_simp
+  · -- full battery (fix F18): nothing is charged, and the flow from SoC 1 stays at 1
+    rw [if_pos heq.ge]
+    refine ⟨_, _, rfl, ⟨rfl, hmp, htwo, hts', hnoise, hmode⟩, rfl, hle, ?_⟩
+    show b.charge / cap = _
+    have : flowSoc (fitM mr V P cap) (fitM mr V P cap / (1 - ts)) (b.charge / cap) 1 = 1 := by
+      rw [heq] at hfb ⊢; linarith [hfb.1, hfb.2.2]
+    rw [this, heq]
 
 /-- `n` periods at the fit's full rate: the flow over time `n` -/
 theorem chargeN_flow (hmr : 0 < mr) (hV : 0 < V) (hP : 0 < P) (hc : 0 < cap) (hts : ts < 1) :
-    ∀ (n : Nat) (b : Batt ℝ), FitBatt cap (mr * V / 1000) ts b →
+    ∀ (n : Nat) (b : Batt ℝ), FitBatt cap (mr * V / 1000) ts b → b.charge ≤ cap →
       ∃ b', chargeN b mr V P n = .ok b' ∧ FitBatt cap (mr * V / 1000) ts b' ∧ b'.init = b.init ∧
         b'.charge / cap =
           flowSoc (fitM mr V P cap) (fitM mr V P cap / (1 - ts)) (b.charge / cap) (n : ℝ) := by
@@ -61,13 +80,13 @@ theorem chargeN_flow (hmr : 0 < mr) (hV : 0 < V) (hP : 0 < P) (hc : 0 < cap) (ht
   intro n
   induction n with
   | zero =>
-    intro b hb
+    intro b hb _
     refine ⟨b, rfl, hb, rfl, ?_⟩
     rw [Nat.cast_zero, flowSoc_zero hm hκ]
   | succ n ih =>
-    intro b hb
-    obtain ⟨b1, r, h1, hb1, hi1, hs1⟩ := charge_step hb hmr hV hP hc hts
-    obtain ⟨b2, h2, hb2, hi2, hs2⟩ := ih b1 hb1
+    intro b hb hle
+    obtain ⟨b1, r, h1, hb1, hi1, hle1, hs1⟩ := charge_step hb hmr hV hP hc hts hle
+    obtain ⟨b2, h2, hb2, hi2, hs2⟩ := ih b1 hb1 hle1
     refine ⟨b2, ?_, hb2, by rw [hi2, hi1], ?_⟩
     · rw [chargeN, h1]; exact h2
     · rw [hs2, hs1, flowSoc_semigroup hm hκ (by norm_num) (Nat.cast_nonneg n)]
